@@ -276,10 +276,12 @@ class SymCtx:
         self.ns.setdefault(name, e)
         return e
 
-    def lock(self, name, held=False):
+    def lock(self, name, held=False, on_block=None):
         lv = LockVal(name, held.t if False else held)
         if isinstance(held, SBool):
             lv.held = held
+        if on_block is not None:
+            lv.on_block = on_block      # see models2.lock_method.acquire: what the other threads do while this one waits
         self.ns.setdefault(name, lv)
         return lv
 
